@@ -79,7 +79,7 @@ def _meta(t):
 
 
 def _args(**kw):
-    a = dict(cols=[], new=[], map=[], add=False, how="", suffix="", rname="", ron=[], n=0, keep=False, lnames=[], rnames=[])
+    a = dict(cols=[], new=[], map=[], add=False, how="", suffix="", rname="", ron=[], n=0, keep=False, lnames=[], rnames=[], u64=False)
     a.update(kw)
     return a
 
@@ -115,7 +115,14 @@ def _abstract(fn_name, table, args, kwargs):
         if fn_name == "group_by":
             return _args(cols=[_name_of(table, c) for c in args], add=bool(kwargs.get("add", False)))
         if fn_name in ("mutate", "summarize"):
-            return _args(new=list(kwargs.keys()))
+            # does an expression read an unsigned 64-bit column (no signed integer type holds its range: known finding F34)
+            u64 = False
+            for v in kwargs.values():
+                if hasattr(v, "iter_subtree_preorder"):
+                    for nd in v.iter_subtree_preorder():
+                        if isinstance(nd, Col) and type(nd.dtype()).__name__ == "UInt64":
+                            u64 = True
+            return _args(new=list(kwargs.keys()), u64=u64)
         if fn_name == "rename":
             nm = args[0] if args else kwargs.get("name_map", {})
             return _args(map=[[_name_of(table, k), v] for k, v in nm.items()])
